@@ -356,6 +356,17 @@ func Exercise(e error) (op string, panicked string) {
 		{"EncodeError+Marshal", func() string { return string(wire.Encode(e)) }},
 		{"re-decode", func() string { return wire.Decode(wire.Encode(e)).Error() }},
 		{"Is(e,e)", func() string { return fmt.Sprint(errors.Is(e, e), errors.IsAny(e, e)) }},
+		{"Is(copy of a layer)", func() string {
+			// Is against a transferred copy of every layer, both ways: equal
+			// messages with type lists of different lengths (a transparent
+			// wrapper and what it wraps) meet in the mark comparison.
+			var b strings.Builder
+			for _, n := range AllNodes(e) {
+				r := wire.Decode(wire.Encode(n))
+				b.WriteString(fmt.Sprint(errors.Is(e, r), errors.Is(r, e), errors.IsAny(e, r, n)))
+			}
+			return b.String()
+		}},
 		{"UnwrapAll", func() string { return fmt.Sprintf("%T", errors.UnwrapAll(e)) }},
 		{"HasType/If", func() string {
 			_, ok := errors.If(e, func(error) (interface{}, bool) { return nil, false })
